@@ -434,7 +434,8 @@ def write_replay(pid, tier, seed, kind, payload):
 def check(pid, tier, seed, replay=None):
     t0 = time.time()
     cfg = PROPS[pid]
-    bdir = os.path.join(BUILD, pid)
+    # one scratch directory per run: two checks of the same property may run at the same time
+    bdir = os.path.join(BUILD, pid if os.environ.get('VERIF_KEEP') else '%s.%d' % (pid, os.getpid()))
     shutil.rmtree(bdir, ignore_errors=True)
     os.makedirs(bdir)
     violations = []      # (replay path, suffix)
@@ -593,12 +594,12 @@ def check(pid, tier, seed, replay=None):
     print('%s tier=%s seed=%s theorems=%d/%d ops=%s mismatches=%s propfails=%s wall=%.1fs' % (
         pid, tier, seed, len(lean['discharged']), len(lean['theorems']), st.get('ops', evals),
         len(corr['mismatch']) if corr else '-', len(corr['propfail']) if corr else '-', time.time() - t0))
+    if not os.environ.get('VERIF_KEEP'):
+        shutil.rmtree(bdir, ignore_errors=True)
     if violations:
         for rp, suffix in violations[:1]:
             print('VIOLATION property=%s replay=%s%s' % (pid, rp, suffix))
         return 1
-    if not os.environ.get('VERIF_KEEP'):
-        shutil.rmtree(bdir, ignore_errors=True)
     return 0
 
 
